@@ -86,6 +86,11 @@ func c03Eval(t gen.TB, w *gen.World, k c03Kind, resp gen.Response, class, desc s
 		lvl = gen.LvlCRL
 	}
 	o := w.Options(lvl, w.NewGetter(), nil)
+	// the options value may have been in use (earlier failing calls through a getter serving the SAME altered response)
+	if pk := prehistoryKind(resp.Body); pk != 0 && len(resp.Body) < 1<<16 {
+		optionsPrehistory(w.Raw, o, pk, w.NewGetter())
+		gen.Class("options-value-used-before")
+	}
 	gen.Eval()
 	v, hung := gen.CallWatch(30*time.Second, func() error { return verify.RawTdxQuote(w.Raw, o) })
 	gen.Class("level:" + lvl.String())
